@@ -35,6 +35,8 @@ type c13Event struct {
 	TimeoutMs int           `json:"timeout_ms"`
 	WaitMs    int           `json:"wait_ms"`
 	Chunked   bool          `json:"chunked"`
+	Combined  bool          `json:"combined"`
+	BufSize   int           `json:"bufsize"`
 	Msgs      []c13Msg      `json:"msgs"`
 	Closed    bool          `json:"closed"`
 	Returned  bool          `json:"returned"`
@@ -48,6 +50,7 @@ type scriptedReader struct {
 	script  []scriptEntry
 	pos     int
 	chunked bool
+	combine bool // a data run and the error that follows it are returned by the same Read call
 	calls   []time.Time
 	kinds   []string
 }
@@ -83,6 +86,19 @@ func (r *scriptedReader) Read(p []byte) (int, error) {
 			}
 		}
 		r.kinds = append(r.kinds, "D")
+		if r.combine && r.pos < len(r.script) && r.script[r.pos].K != "D" {
+			k := r.script[r.pos].K
+			r.pos++
+			r.kinds = append(r.kinds, k)
+			r.calls = append(r.calls, time.Now())
+			switch k {
+			case "E":
+				return n, io.EOF
+			case "T":
+				return n, errTimeout
+			}
+			return n, otherErrors[(r.pos+len(r.script))%len(otherErrors)]
+		}
 		return n, nil
 	case "E":
 		r.pos++
@@ -98,15 +114,19 @@ func (r *scriptedReader) Read(p []byte) (int, error) {
 	return 0, otherErrors[(r.pos+len(r.script))%len(otherErrors)]
 }
 
-func runScript(script []scriptEntry, timeoutMs, waitMs int, chunked bool, cls string) c13Event {
-	ev := c13Event{Script: script, TZ: timeoutMs == 0, TimeoutMs: timeoutMs, WaitMs: waitMs, Chunked: chunked, Msgs: []c13Msg{}, Cls: cls}
-	sr := &scriptedReader{script: script, chunked: chunked}
+func runScript(script []scriptEntry, timeoutMs, waitMs int, chunked bool, cls string, combine bool, bufSize int) c13Event {
+	ev := c13Event{Script: script, TZ: timeoutMs == 0, TimeoutMs: timeoutMs, WaitMs: waitMs, Chunked: chunked, Combined: combine, BufSize: bufSize, Msgs: []c13Msg{}, Cls: cls}
+	sr := &scriptedReader{script: script, chunked: chunked, combine: combine}
 	cfg := &jsonconfig.Config{TimeoutOnEOFMilliSeconds: uint(timeoutMs), WaitTimeOnEOFMilliseconds: uint(waitMs)}
 	ch := make(chan handler.Message)
 	fh := filehandler.New(ch, cfg)
 	ret := make(chan error, 1)
 	t0 := time.Now()
-	go func() { ret <- fh.Handle(time.Date(2023, 5, 10, 12, 0, 0, 0, time.UTC), bufio.NewReader(sr)) }()
+	br := bufio.NewReader(sr)
+	if bufSize > 0 {
+		br = bufio.NewReaderSize(sr, bufSize)
+	}
+	go func() { ret <- fh.Handle(time.Date(2023, 5, 10, 12, 0, 0, 0, time.UTC), br) }()
 	deadline := time.After(20 * time.Second)
 collect:
 	for {
@@ -247,9 +267,12 @@ func c13(args []string) {
 		go func(i int, j job) {
 			defer wg.Done()
 			defer func() { <-sem }()
-			ev := runScript(j.script, j.timeout, j.wait, j.chunked, j.cls)
+			// the source may hand over data and the error in one Read result; bufio buffer sizes vary
+			combine := i%3 == 1
+			bufSize := []int{0, 16, 0, 8192, 0, 0}[i%6]
+			ev := runScript(j.script, j.timeout, j.wait, j.chunked || combine, j.cls, combine, bufSize)
 			if ev.Stalled { // once more, alone
-				ev = runScript(j.script, j.timeout, j.wait, j.chunked, j.cls)
+				ev = runScript(j.script, j.timeout, j.wait, j.chunked || combine, j.cls, combine, bufSize)
 			}
 			results[i] = ev
 		}(i, j)
